@@ -154,6 +154,34 @@ pub fn run(args: &Args) -> i32 {
             }
         }
     });
+    // chains of steep, tightly curled tracks that cross the axis a few centimetres apart in z: one primary vertex that
+    // is several centimetres away from most of its tracks (the closest-approach iteration has real work to do)
+    rep.run("vertex-chains", 3 * 4 * 2 * 2, 600, true, "3 or 6 tracks through the axis, curvature radius {0.12, 0.15, 0.3} m x pitch {0.5, 1, -1, 2} m per turn x crossing points {2, 3.3} cm apart in z: per-track t of the primary vertex against the reported position", |idx, loc| {
+        let d = unrank(idx, &[3, 4, 2, 2]);
+        let rad = [0.12, 0.15, 0.3][d[0] as usize];
+        let h = [0.5, 1.0, -1.0, 2.0][d[1] as usize];
+        let dz = [0.02, 0.033][d[2] as usize];
+        let nt = [3usize, 6][d[3] as usize];
+        let tracks: Vec<Track> = (0..nt).map(|k| {
+            let a = 0.4 + 1.0 * k as f64;
+            vh::track_from_params([rad * a.cos(), rad * a.sin(), -0.1 + dz * k as f64, rad, a + PI, if k % 2 == 0 { h } else { -h }], -0.6, -0.3)
+        }).collect();
+        loc.note(hash64(&(idx, 7u8)), true, "evaluated");
+        match vertices(tracks) {
+            Err(p) => loc.violation(format!("panic:find-vertices:{}", panic_site(&p)), json!({"chain": [rad, h, dz], "panic": p})),
+            Ok(r) => {
+                if let Some(pv) = r.primary {
+                    let pos = [pv.position.x.get::<meter>(), pv.position.y.get::<meter>(), pv.position.z.get::<meter>()];
+                    loc.count("chain_vertices", 1);
+                    loc.count("chain_vertex_tracks", pv.tracks.len() as u64);
+                    for (j, (t, tt)) in pv.tracks.iter().enumerate() {
+                        let spt = sp_xy(pos[0], pos[1], pos[2]);
+                        judge_t(t, xyz(&spt), *tt, "vertex-track-t", json!({"chain": {"radius": rad, "pitch": h, "dz": dz, "tracks": nt}, "reported_vertex": pos, "track": j}), loc);
+                    }
+                }
+            }
+        }
+    });
     // clusters of many distinct points (a fit that thins or truncates large clusters may lose the end points)
     let big_n = [64usize, 255, 256, 257, 368, 513, 1000];
     rep.run("large-clusters", big_n.len() as u64 * 3 * 3 * 2, 600, true, "tracks of {64, 255, 256, 257, 368, 513, 1000} distinct points x curvature radius (3) x pitch (0, 0.3, -0.8) x {exact, displaced by 2 mm in z / 0.5 mm in r}: t_inner / t_outer against the innermost / outermost point of the cluster", |idx, loc| {
